@@ -29,7 +29,7 @@ func (c *checkDef) Owns(prop string) bool {
 var loggingCases = []string{"two-writer-settings-in-one-document", "backups-then-file", "file-then-back", "rebuild-vs-log-reader", "backups-then-level", "level-then-compress-then-level"}
 
 func racePackages() []string {
-	return []string{"./cache", "./utils/event", "./proxy", "./proxy/certs", "./webserver/auth", "./logging", "./metrics"}
+	return []string{"./cache", "./utils/event", "./proxy", "./proxy/certs", "./webserver/auth", "./logging", "./metrics", "./config"}
 }
 
 
@@ -532,6 +532,8 @@ func checkC18() *checkDef {
 				{Pkg: "./config", Scenario: "config/update", Params: map[string]any{"depth": d}},
 				{Pkg: "./config", Scenario: "config/persist-faults", Params: map[string]any{}},
 				{Pkg: "./config", Scenario: "config/doc-shapes", Params: map[string]any{}, Workers: 1},
+				// GET /api/config, PATCH /api/config and readers of a setting at the same time
+				{Pkg: "./config", Scenario: "config/concurrent", Params: map[string]any{}, K: 2, E: 0, Horizon: 20000, Workers: 4},
 				// accepted web-server settings handed to the real main.startWebServer
 				{Pkg: "./.", Scenario: "main/startup", Params: map[string]any{}, Workers: 1},
 				// updates accepted while command-line values are in force: the file gets the saved values only
@@ -696,6 +698,8 @@ func checkC15() *checkDef {
 			for _, only := range loggingCases {
 				rs = append(rs, run{Pkg: "./logging", Scenario: "logging/sched", Params: map[string]any{}, K: 1, E: 1, F: 1, Horizon: 20000, Race: true, Workers: 8, Only: only})
 			}
+			// the configuration object: GET /api/config (marshals it) against PATCH /api/config and subscribers
+			rs = append(rs, run{Pkg: "./config", Scenario: "config/concurrent", Params: map[string]any{}, K: k, E: 0, Horizon: 20000, Race: true, Workers: 4})
 			// the metrics structure: first polls of two dashboards and request traffic at once
 			rs = append(rs, run{Pkg: "./metrics", Scenario: "metrics/sched", Params: map[string]any{}, K: k + 1, E: 1, Horizon: 3000, Race: true, Workers: 4})
 			return rs
